@@ -65,6 +65,11 @@ def gen(pid, tier, seed):
         scripts.append("\n".join(["B C18bt%d.%d method=%s seed=1 maxwait=30 memrec=1" % (seed, i, m), "O tm 1", "O tm 2",
                                   "S thr_create 1", "T 1 iv_init", "T 1 tm_bulk 2 %d 1000" % cnt, "T 1 tm_reg 1 1 0 1000",
                                   "R tm 1 0 1 quit", "T 1 iv_main"] + (["T 1 iv_deinit"] if i % 2 else []) + ["X"]) + "\n")
+    # ... and with that many timers all firing (the store grows and shrinks again; nothing is left behind)
+    for i, cnt in enumerate([130, 300, 1000] if tier == "quick" else [127, 128, 130, 256, 300, 1000, 16385, 20000]):
+        m = rnd.choice(coregen.METHODS)
+        scripts.append("\n".join(["B C18x%d.%d method=%s seed=1 maxwait=30 memrec=1 cycles=%d" % (seed, i, m, rnd.choice([1, 2])),
+                                  "O tm 1", "O tm 2", "S tm_bulk 2 %d 0" % cnt, "S tm_reg 1 1 0 1000", "X"]) + "\n")
     return scripts
 
 
